@@ -66,7 +66,8 @@ def run(ctx):
     for i in range(N):
         specs = [rand_spec(ctx.rng) for _ in range(ctx.rng.randint(1, 10))]
         show = ctx.rng.random() < 0.5
-        numtxt = ctx.rng.choice(['0.5', '1', '2.25', '.75', '10', '0', '3.', '1.5 ', ' 2'])
+        numtxt = ctx.rng.choice(['0.5', '1', '2.25', '.75', '10', '0', '3.', '1.5 ', ' 2', '0.125', '0.004', '1.333', '0.1', '0.3333333', '12.5', '0.07'])
+        if ctx.rng.random() < 0.3: numtxt = '%d.%s' % (ctx.rng.randint(0, 20), ''.join(ctx.rng.choice('0123456789') for _ in range(ctx.rng.randint(1, 6))))     # any number of decimals
         unit = ctx.rng.choice(UNITS)
         spacing = numtxt + ctx.rng.choice(['', '', ' ']) + unit
         # spacing -> (number text, unit): model vs re
